@@ -124,6 +124,9 @@ def collect_uses(ctx, stmts):
                 if n != ctx.dim:
                     use("nat", n)
                 return
+            if n in ctx.bool_vars:
+                use("bool", n)
+                return
             use("scalar", n)
             return
         if k in ("paren", "neg", "not", "deref", "ref"):
@@ -153,6 +156,10 @@ def collect_uses(ctx, stmts):
             return
         if k == "tuple":
             for a in e[1]:
+                uexpr(a, lvs)
+            return
+        if k == "ifexpr":
+            for a in e[1:4]:
                 uexpr(a, lvs)
             return
         raise TieBroken("unsupported expression in use analysis: %r" % (k,))
@@ -340,6 +347,8 @@ def region_to_lean(name, text, consts, dim="n", nat_vars=(), ret=None, skip_lets
             params.append("(%s : α)" % nm)
         elif kind == "nat":
             params.append("(%s : Nat)" % nm)
+        elif kind == "bool":
+            params.append("(%s : Bool)" % nm)
         elif kind == "vec":
             params.append("(%s : Vector α %s)" % (nm, dim))
         elif kind == "mat":
